@@ -686,6 +686,7 @@ const (
 )
 
 type builtVote struct {
+	NamesPastSet bool // the message names (and is signed by) the validator set of the height below
 	Kind   int
 	H      uint64
 	R      uint32
@@ -707,11 +708,20 @@ func (s *sim) buildVote(op Op) builtVote {
 	default:
 		b.PKH = string(set.VS.PubKeyHash)
 	}
+	signSet := set
+	if op.PKH == 3 && h > s.w.init {
+		// a validator set of the past keeps voting: the message names the set of the height below and is
+		// signed with that set's keys (the node must judge it by the set of the vote's own height)
+		signSet = s.setFor(h - 1)
+		b.PKH = string(signSet.VS.PubKeyHash)
+		b.NamesPastSet = string(signSet.VS.PubKeyHash) != string(set.VS.PubKeyHash)
+		n = len(signSet.Keys)
+	}
 	for _, t := range op.T {
 		hash := s.targetHash(h, t.T)
 		msg := voteBytes(op.Kind, h, r, hash)
 		for _, i := range maskIdx(t.S, n) {
-			key := set.Keys[i]
+			key := signSet.Keys[i]
 			kid := keyID(i)
 			m := msg
 			c := vcNone
@@ -721,7 +731,7 @@ func (s *sim) buildVote(op Op) builtVote {
 			var sig []byte
 			switch c {
 			case vcOtherKey:
-				key = set.Keys[(i+1)%n]
+				key = signSet.Keys[(i+1)%n]
 				if n == 1 {
 					key = 10
 				}
@@ -802,6 +812,11 @@ func (s *sim) voteTriggers(b builtVote) (out []string) {
 	if s.c10 && h > s.vv.Height && pairs > 0 {
 		// stored as FutureVerified, but a view shift into that height starts from an empty view
 		out = append(out, "C10-F2")
+	}
+	if h > s.vv.Height && b.NamesPastSet {
+		// the same site reached directly: the message names a set the store knows (the one of the height
+		// below) that is not the set of the vote's height
+		out = append(out, "C09-A26")
 	}
 	if h > s.vv.Height && pairs > 0 && (s.altUsed || s.caseHasAlt()) {
 		// verified against the set its PubKeyHash names and stored for a height whose set may differ:
